@@ -43,6 +43,13 @@ fn placements(pl: &Plain, thorough: bool) -> Vec<(f64, String)> {
             v.push((pl.xs[k + 1], format!("x{} exactly", k + 1)));
         }
     }
+    // the step that lands on xend
+    if n - 1 >= nk {
+        let h = pl.h(n - 1);
+        for th in [0.3, 0.7] {
+            v.push((pl.xs[n - 1] + th * h, format!("last step+{}h", th)));
+        }
+    }
     let (lo, hi) = (pl.xs[0].min(pl.xs[n]), pl.xs[0].max(pl.xs[n]));
     v.retain(|(t, _)| *t > lo && *t < hi);
     v
@@ -768,6 +775,35 @@ pub fn run_check(mode: Mode, replay: Option<Value>) -> i32 {
             }
         }
     }
+    if mode == Mode::C08 {
+        // the other degenerate case: a problem without state components (y0 = []) and time-only event functions,
+        // over a real interval: still one list per event function on both sides
+        let empty = crate::problems::Prob { name: "no state components".into(), n: 0, f: std::sync::Arc::new(|_t, _y, _d| {}), jac: None, flow: None, y0: vec![], linear_homogeneous: true };
+        for m in M6 {
+            for nev in 1..=3usize {
+                let key = format!("emptystate:{}.{}", mname(m), nev);
+                if only.as_ref().map(|o| *o != key).unwrap_or(false) {
+                    continue;
+                }
+                let mut c = Cfg::new(m, 0.0, 1.0, &empty.y0);
+                c.events = (0..nev).map(|k| EventSpec::new(EvKind::T(0.3 + 0.2 * k as f64))).collect();
+                let r = run(&empty, &c);
+                rep.evaluations += 1;
+                rep.transitions += 1;
+                match &r.out {
+                    Outcome::Ok(s) => {
+                        if s.t_events.len() != nev || s.y_events.len() != nev || s.t_events.iter().zip(&s.y_events).any(|(a, b)| a.len() != b.len()) {
+                            rep.violations.push(Violation::new(&key, "shape", format!("{} event functions on a problem without state components: t_events has {} lists, y_events {}", nev, s.t_events.len(), s.y_events.len()), json!({"key": key})).with("method", mname(m)));
+                        }
+                        *rep.tags.entry("empty-state-shapes".into()).or_insert(0) += 1;
+                    }
+                    // (an Err for the empty state is an answer too; a panic is not)
+                    Outcome::Panic(msg) => rep.violations.push(Violation::new(&key, "outcome", format!("empty state: panicked: {}", msg), json!({"key": key})).with("method", mname(m))),
+                    _ => {}
+                }
+            }
+        }
+    }
     if mode == Mode::C10 || mode == Mode::C08 {
         // the EventConfig setters: every sequence of up to three calls leaves the documented state
         // ("terminal(): turn on termination after the first occurrence", the last call wins)
@@ -835,6 +871,41 @@ pub fn run_check(mode: Mode, replay: Option<Value>) -> i32 {
         }
     }
     if mode == Mode::C09 {
+        // spans below every absolute time constant of the library (3e-13, 4e-14), x0 = 0: the single root of a
+        // +-(t - c) function in the middle of the span is one event, located inside the span
+        for m in M6 {
+            for span in [3e-13, 4e-14] {
+                for backward in [false, true] {
+                    for neg in [false, true] {
+                        let key = format!("tinyspan:{}:{:e}:{}:{}", mname(m), span, backward as u8, neg as u8);
+                        if only.as_ref().map(|o| *o != key).unwrap_or(false) {
+                            continue;
+                        }
+                        let p0 = crate::problems::timescale(&crate::problems::base(crate::problems::Base::Harmonic(1.0)), 1e13);
+                        let p = if backward { crate::problems::reflect(&p0) } else { p0 };
+                        let xend = if backward { -span } else { span };
+                        let c_root = 0.43 * xend;
+                        let mut c = Cfg::new(m, 0.0, xend, &p.y0).tol(1e-6, 1e-8);
+                        c.events = vec![EventSpec::new(if neg { EvKind::NegT(c_root) } else { EvKind::T(c_root) })];
+                        let r = run(&p, &c);
+                        rep.evaluations += 1;
+                        rep.transitions += r.st.n_ode;
+                        match r.sol() {
+                            Some(s) if s.status == Status::Success => {
+                                let ev = &s.t_events[0];
+                                let inside = ev.iter().all(|t| (t - 0.0) * xend.signum() >= 0.0 && (xend - t) * xend.signum() >= 0.0);
+                                if ev.len() != 1 || !inside {
+                                    rep.violations.push(Violation::new(&key, "tiny-span-event", format!("{} on [0,{:e}] with g = {}(t - {:e}): events {:?} (expected one, inside the span)", mname(m), xend, if neg { "-" } else { "" }, c_root, ev), json!({"key": key})).with("method", mname(m)));
+                                }
+                                rep.validated += 1;
+                                *rep.tags.entry("tiny-span-event".into()).or_insert(0) += 1;
+                            }
+                            _ => rep.violations.push(Violation::new(&key, "outcome", format!("{} on [0,{:e}] with one event function ended with {}", mname(m), xend, r.outcome_name()), json!({"key": key})).with("method", mname(m))),
+                        }
+                    }
+                }
+            }
+        }
         // the integer conversion of the direction filter (SciPy style): the sign decides, not the value
         for k in -3i32..=3 {
             let want = if k > 0 { Direction::Positive } else if k < 0 { Direction::Negative } else { Direction::All };
